@@ -9,7 +9,7 @@ PID = "C14"
 EXHAUSTIVE = {"quick": True, "thorough": True}
 RULE = ("for each of the seven socket types with recv: a scripted peer delivers messages cut at EVERY byte position (messages up to 40 bytes: "
         "exhaustive over cut position x number of polls 0..3 after which the recv future is dropped), abandoned recvs repeated after every chunk, "
-        "then the socket is drained by completed recvs; REQ/REP additionally: the send/recv that follows an abandoned recv; seeded scenarios with "
+        "then the socket is drained by completed recvs; a recv that parks after the abandoned one, polled with a fresh waker and re-polled only when that waker is woken, while the remaining bytes arrive (lost wake-up = unusable socket); REQ/REP additionally: the send/recv that follows an abandoned recv; seeded scenarios with "
         "2-3 peers; distinct = distinct (type, cut, polls); non-trivial = the abandoned recv was polled at least once while bytes of a message were pending")
 TYPES = ["PULL", "SUB", "DEALER", "ROUTER", "REP", "XPUB", "REQ"]
 
@@ -61,6 +61,22 @@ def cases(tier, rng):
             ops += ["recv"] * (len(ms) + 1)
             out.append("y%d sock %s / %s" % (k, t, " / ".join(ops)))
             k += 1
+    # a recv that parks AFTER an abandoned recv, polled with a different waker, must be woken when the bytes arrive
+    for t in TYPES:
+        ms = msgs_for(t)
+        stream = b"".join(W.msg(m) for m in ms)
+        for cut in range(0, len(stream)):
+            for polls in (1, 2, 3):
+                ops = ["attach a " + scen.PEER[t]]
+                if t == "REQ":
+                    ops += ["send 7265712d31", "wire a"]
+                if cut > 0:
+                    ops.append("feed a " + W.tok(stream[:cut]))
+                ops.append("recvp %d" % polls)
+                ops.append("recvw a " + W.tok(stream[cut:]))
+                ops += ["recv"] * len(ms)
+                out.append("z%d sock %s / %s" % (k, t, " / ".join(ops)))
+                k += 1
     for t in TYPES:
         for _ in range(120 if tier == "quick" else 2500):
             line = scen.scenario(rng, t, allow_eof=False)
@@ -84,9 +100,11 @@ def judge(line, obs, orc):
         return "implementation " + str(obs)[:80]
     t, po = S.pair_ops_obs(line, obs)
     kind = line.split()[0][0]
-    if kind in "xy":
+    if "r=lost-wakeup" in obs:
+        return "a recv parked after an abandoned recv was never woken although the bytes of a complete message had arrived (socket unusable for a task awaiting it)"
+    if kind in "xyz":
         ms = msgs_for(t)
-        got = [tk for op, tk in po if op[0] in ("recv", "recvp") and tk and ("=ok:" in tk)]
+        got = [tk for op, tk in po if op[0] in ("recv", "recvp", "recvw") and tk and ("=ok:" in tk)]
         if t == "REP":
             want = ["first;78", "7365636f6e64"]
         elif t == "REQ":
@@ -127,6 +145,11 @@ def judge(line, obs, orc):
         t2, po2 = S.pair_ops_obs(line, obs)
         return c05.sock_judge(line.replace("recvp", "recv"), " ".join(tk for tk in toks))
     return None
+
+
+def model_cases(case_lines):
+    import re
+    return [re.sub(r"recvw (\S+) (\S+)", r"feed \1 \2 / recv", l) for l in case_lines]
 
 
 def nontrivial(line):
